@@ -124,6 +124,32 @@ theorem soft_errors_keep_payload
   simp only [KOut.count, List.filter, String.reduceBEq, List.length]
   omega
 
+/-- **The clock decides every presentation of an out-of-window credential.**  In `dec_process_msg` (translated from
+    dec.c) the time check runs before the replay stage - the only stage that records a credential - and when it refuses
+    (EXPIRED / REWOUND, `r13 < 0`) the replay stage is not run at all and nothing is withdrawn: presenting a credential
+    too early or too late leaves the replay cache untouched, so a second late presentation is EXPIRED again (not
+    REPLAYED) and a credential first presented too early is still valid once inside its window. -/
+theorem out_of_window_is_not_recorded
+    (e r1 r2 r3 r4 r5 r6 r7 r8 r9 r10 r11 r12 r13 r14 rs ri : Int) (htime : r13 < 0) :
+    let out := dec_process_msg e r2 ri r1 r3 r4 r5 r6 r7 r8 r9 r10 r11 r12 r13 r14 rs
+    out.count "dec_validate_replay" = 0 ∧ out.count "replay_remove" = 0 ∧ out.ret = -1 := by
+  unfold dec_process_msg
+  simp only [apply_ite KOut.ret, apply_ite (fun o => KOut.count o "dec_validate_replay"),
+    apply_ite (fun o => KOut.count o "replay_remove")]
+  simp only [KOut.count, List.filter, String.reduceBEq, List.length]
+  omega
+
+/-- … and the time check is reached only by a credential that passed the MAC and the authorisation check, exactly once. -/
+theorem time_check_runs_once_after_auth
+    (e r1 r2 r3 r4 r5 r6 r7 r8 r9 r10 r11 r12 r13 r14 rs ri : Int) :
+    let out := dec_process_msg e r2 ri r1 r3 r4 r5 r6 r7 r8 r9 r10 r11 r12 r13 r14 rs
+    out.count "dec_validate_time" ≤ 1 ∧
+    (out.count "dec_validate_replay" = 1 → out.count "dec_validate_time" = 1 ∧ r13 ≥ 0 ∧ r12 ≥ 0) := by
+  unfold dec_process_msg
+  simp only [apply_ite (fun o => KOut.count o "dec_validate_replay"), apply_ite (fun o => KOut.count o "dec_validate_time")]
+  simp only [KOut.count, List.filter, String.reduceBEq, List.length]
+  omega
+
 /-! ### non-vacuity: concrete points of the window, evaluated on the generated kernel -/
 
 example : Ranges 300 1000000 1000300 3600 1 := by unfold Ranges MUNGE_MAXIMUM_TTL; omega
